@@ -3,7 +3,7 @@
 // and `Ball`.  Points and vectors are plain structs with public f64 coordinates (`p.x`, `p.y` as in nalgebra).
 // ASSUMED CONTRACTS ON DEPENDENCIES (nalgebra / parry / std only; engeom's own code is never modelled here):
 //   G1  p - q, p + v, p - v, v + w, v * s act coordinate-wise
-//   G2  v.norm() = sqrt(x^2 + y^2) >= 0;  v.dot(w) = x x' + y y'
+//   G2  v.norm() = v.magnitude() = sqrt(x^2 + y^2) >= 0;  v.dot(w) = x x' + y y';  v.norm_squared() = v.magnitude_squared() = x^2 + y^2
 //   G3  v.normalize(), Unit::new_normalize(v): REQUIRE |v| > 0 (nalgebra returns NaN coordinates for the zero vector:
 //       this is the "no non-finite coordinate" obligation) and return v / |v| coordinate-wise
 //   G4  Isometry2::rotation(a) * v = (cos a * x - sin a * y, sin a * x + cos a * y)
@@ -57,6 +57,13 @@ impl Vector2 {
     pub fn norm(&self) -> (r: f64) ensures rv(r) == self.rnorm(), rv(r) >= 0real, rv(r) * rv(r) == self.norm2() { unimplemented!() }
     #[verifier::external_body]
     pub fn dot(&self, o: &Vector2) -> (r: f64) ensures rv(r) == self.rdot(*o) { unimplemented!() }
+    // G2 (only reached by rewritten code): nalgebra norm_squared / magnitude_squared = x^2 + y^2, magnitude = norm
+    #[verifier::external_body]
+    pub fn norm_squared(&self) -> (r: f64) ensures rv(r) == self.norm2(), rv(r) >= 0real { unimplemented!() }
+    #[verifier::external_body]
+    pub fn magnitude_squared(&self) -> (r: f64) ensures rv(r) == self.norm2(), rv(r) >= 0real { unimplemented!() }
+    #[verifier::external_body]
+    pub fn magnitude(&self) -> (r: f64) ensures rv(r) == self.rnorm(), rv(r) >= 0real, rv(r) * rv(r) == self.norm2() { unimplemented!() }
     #[verifier::external_body]
     pub fn normalize(&self) -> (r: Vector2)
         requires self.norm2() > 0real
